@@ -273,6 +273,16 @@ func init() {
 		MinNontrivial: 8,
 		Cases: func(tier string, seed int64) []CaseSpec {
 			cs := byzCases(tier, seed+2750159, 24, 300)
+			for i := range cs {
+				if i%4 == 1 {
+					// six validators: one keeps lying, two leave and go on creating events
+					cs[i].P["n"] = 6
+					cs[i].P["puppets"] = 3
+					cs[i].P["departing"] = 1
+					cs[i].P["joins"], cs[i].P["leaves"] = 0, 0
+					cs[i].P["steps"] = 500
+				}
+			}
 			dc := dagCases(tier, seed+15487469, 40, 600)
 			for i := range dc {
 				dc[i].Kind = "dag-ts"
@@ -292,14 +302,30 @@ func init() {
 			}
 			return runByzHistory(cs, func(nw *Network, ps []*Puppet) []Monitor {
 				m := NewMonTimestamps()
-				for _, p := range ps {
-					m.Liars[p.sn.Idx] = true
-					p.Timestamp = func() int64 {
-						if nw.Rng.Intn(3) == 0 {
-							return nw.Rng.Int63() - nw.Rng.Int63()
-						}
-						return lyingTimes[nw.Rng.Intn(len(lyingTimes))]
+				lie := func() int64 {
+					if nw.Rng.Intn(3) == 0 {
+						return nw.Rng.Int63() - nw.Rng.Int63()
 					}
+					return lyingTimes[nw.Rng.Intn(len(lyingTimes))]
+				}
+				for i, p := range ps {
+					p := p
+					m.Liars[p.sn.Idx] = true
+					if cs.I("departing", 0) > 0 && i > 0 {
+						// these validators report honest times while they are validators, ask
+						// to leave, and - unlike an honest leaver - keep creating events, now
+						// with absurd times, after their removal took effect
+						p.LeaveAtEvent = 6 + 3*i
+						p.Timestamp = func() int64 {
+							if p.Departed() {
+								nw.Res.count("puppet_events_with_absurd_time_after_departure", 1)
+								return lie()
+							}
+							return time.Now().Unix()
+						}
+						continue
+					}
+					p.Timestamp = lie
 				}
 				return []Monitor{m}
 			})
